@@ -355,7 +355,8 @@ fn run(rng: &mut Rng, idx: u64, tier: Tier) -> CaseOut {
         return out;
     }
     let unit = sys.graph.unit_colored_vertices();
-    if orig.intersect(unit) != resp.intersect(unit) {
+    // raw sets: both spellings stay inside the unit set on a correct library; a shortcut that returns colours outside it differs
+    if orig != resp {
         violate_diff(&mut out, &world, &sys, "shortcut result differs from generic evaluation", (&text, &orig), (&gtext, &resp), vec![("context_sets", sets_json(&world, &sets))]);
         return out;
     }
